@@ -149,6 +149,8 @@ def run_property(prop_id, tier, seed, jobs=None, only=None):
     if violations:
         for v in violations[:10]:
             print(f'  violation: {v["config"]} / {v["check"]}: {v["observed"]}')
+        for m in (inconclusive + valfail)[:8]:
+            print('  inconclusive:', m[:800])
         return 1
     if inconclusive or valfail:
         for m in (inconclusive + valfail)[:15]:
